@@ -12,7 +12,7 @@ except ImportError:
     SUSPENDED = {}
 CLAIMED = {k: v for k, v in CLAIMED.items() if k not in SUSPENDED}
 
-V = Path("/verif")
+V = common.VERIF
 props = [json.loads(l) for l in (V / "properties.jsonl").read_text().splitlines() if l.strip()]
 base = json.load(open("/root/.vp/BASELINE.json"))
 checks = []
